@@ -417,14 +417,17 @@ Definition wrap_seen (ind : str) (align : bool) (width : Z) (T : node) (sr : rpa
   match wrap_real ind align width T sr with Some c => seen c | None => Text [] end.
 Close Scope Z_scope.
 
-(* the class of the open finding C03-preserved-newline-offset: some text below an element bearing
-   xml:space="preserve" contains a newline (then the writer's offset counts from inside preserved content and
-   _line_offset can be 0 without the stream being at the start of a line) *)
-Fixpoint preserved_newline (inside : bool) (n : node) : bool :=
+(* the class of the open finding C03-preserved-newline-offset: content that is written verbatim contains a newline -
+   a text below an element bearing xml:space="preserve", a comment, a processing instruction or an attribute value
+   (then the writer's offset counts from inside that content and _line_offset can be 0 without the stream being at
+   the start of a line) *)
+Definition has_lf (s : str) : bool := existsb (N.eqb LF) s.
+Fixpoint verbatim_newline (inside : bool) (n : node) : bool :=
   match n with
   | Tag _ _ attrs kids =>
       let here := (inside || match get_attr xml_ns s_space attrs with Some v => str_eqb v s_preserve | None => false end)%bool in
-      existsb (preserved_newline here) kids
-  | Text s => (inside && existsb (N.eqb LF) s)%bool
-  | _ => false
+      (existsb (fun a : attr => has_lf (snd a)) attrs || existsb (verbatim_newline here) kids)%bool
+  | Text s => (inside && has_lf s)%bool
+  | Comment s => has_lf s
+  | PI _ c => has_lf c
   end.
